@@ -98,6 +98,10 @@ func (cb *CanonicalBlock) MarshalCbor(w io.Writer) error {
 
 // UnmarshalCbor creates this Canonical Block based on a CBOR representation.
 func (cb *CanonicalBlock) UnmarshalCbor(r io.Reader) error {
+	// Pipe incoming bytes into a separate CRC buffer
+	crcBuff := new(bytes.Buffer)
+	r = io.TeeReader(r, crcBuff)
+
 	var blockLen uint64
 	if bl, err := cboring.ReadArrayLength(r); err != nil {
 		return err
@@ -105,16 +109,6 @@ func (cb *CanonicalBlock) UnmarshalCbor(r io.Reader) error {
 		return fmt.Errorf("expected array with length 5 or 6, got %d", bl)
 	} else {
 		blockLen = bl
-	}
-
-	// Pipe incoming bytes into a separate CRC buffer
-	crcBuff := new(bytes.Buffer)
-	if blockLen == 6 {
-		// Replay array's start
-		if err := cboring.WriteArrayLength(blockLen, crcBuff); err != nil {
-			return err
-		}
-		r = io.TeeReader(r, crcBuff)
 	}
 
 	var blockType uint64
@@ -156,12 +150,10 @@ func (cb *CanonicalBlock) UnmarshalCbor(r io.Reader) error {
 	}
 
 	if blockLen == 6 {
-		if crcCalc, crcErr := calculateCRCBuff(crcBuff, cb.CRCType); crcErr != nil {
-			return crcErr
-		} else if crcVal, err := cboring.ReadByteString(r); err != nil {
+		if crcVal, err := cboring.ReadByteString(r); err != nil {
 			return err
-		} else if !bytes.Equal(crcCalc, crcVal) {
-			return fmt.Errorf("invalid CRC value: %x instead of expected %x", crcVal, crcCalc)
+		} else if crcErr := checkReceivedCRC(crcBuff.Bytes(), cb.CRCType, crcVal); crcErr != nil {
+			return crcErr
 		} else {
 			cb.CRC = crcVal
 		}
